@@ -180,13 +180,13 @@ class RealSim(simrun.Sim):
         for i, e in enumerate(evs):
             if e['ev'] == 'start':
                 rsp = bytes.fromhex(e['rsp']).decode("utf-8", "replace") if e.get('rsp_exists') else None
-                trace.append(dict(ev='start', seq=i, edge=e['edge'], running=list(running), lock_mtime=e['lock_mtime'], dirs_ok={'all': e['dirs_ok']},
+                trace.append(dict(ev='start', seq=i, t=e['t'], edge=e['edge'], running=list(running), lock_mtime=e['lock_mtime'], dirs_ok={'all': e['dirs_ok']},
                                   rspfile=rsp, n=len([x for x in trace if x['ev'] == 'start']), argv=[bytes.fromhex(a).decode("utf-8", "replace") for a in e['argv']]))
                 running.append(e['edge'])
             else:
                 if e['edge'] in running:
                     running.remove(e['edge'])
-                trace.append(dict(ev='finish', seq=i, edge=e['edge'], status=e['status'], wrote=e['wrote']))
+                trace.append(dict(ev='finish', seq=i, t=e['t'], edge=e['edge'], status=e['status'], wrote=e['wrote']))
         files, dirs = self.scan_dir()
         res = dict(phase='uptodate' if "ninja: no work to do." in out else 'build', status=p.returncode, err=out, trace=trace, files=files, dirs=dirs, now=0,
                    warnings=[], crashed=False, log=self.read_log(), deps=self.read_deps(), stdout=p.stdout.decode("utf-8", "replace"))
